@@ -42,6 +42,11 @@ class Recorder(jsl.DispatcherObserver):
         self.trace = trace if trace is not None else []
         self.rid = rid
 
+    def __len__(self):
+        # a user observer that is also a container of what it saw: falsy while it has seen nothing (the library has to tell
+        # "no observer" from "an observer that is empty")
+        return len(self.log)
+
     def update(self, scheduled_operation):
         self.log.append(f"U {fmt_sop(scheduled_operation)} {fmt_snapshot(self.dispatcher)}")
         self.trace.append(f"{self.rid}:U{scheduled_operation.operation.operation_id}")
@@ -532,6 +537,15 @@ class ImplViews(ImplEq):
             with open(path, "w", encoding="utf-8") as f:
                 f.write(text)
             back = jsl.JobShopInstance.from_taillard_file(path, key="value")
+            # the caller names the instance itself (a name with dots, slashes and an extension-like tail is a name like any other)
+            self._tl = getattr(self, "_tl", 0) + 1
+            given = ["ft06.v2", "set.1/inst.07.txt", "a.b.c", ".hidden", "plain", "v1.0 (copy)"][self._tl % 6]
+            meta = {"optimum": 55, "source": "verif.suite", "nested": {"k": [1, 2]}}
+            try:
+                named = jsl.JobShopInstance.from_taillard_file(path, name=given, **meta)
+                self.taillard_named = (given, named.name, meta, named.metadata, fmt_instance(named) == fmt_instance(back))
+            except Exception as e:  # pylint: disable=broad-except
+                self.taillard_named = (given, f"raised {type(e).__name__}", meta, None, False)
         self.last_roundtrip = (I, back, None)
         return fmt_instance(back)
 
@@ -1155,11 +1169,34 @@ class ImplViz(ImplGen):
         from job_shop_lib.visualization import GanttChartCreator
         d2 = jsl.Dispatcher(self.instance)
         tmp = _tempfile.mkdtemp(prefix="verif_frames_")
-        creator = GanttChartCreator(d2, gif_config={"frames_dir": tmp, "remove_frames": False,
+        # any frame rate and loop count the caller likes: the GIF shows every frame, whatever the speed
+        fps = [1, 2, 24, 50, 60, 120, 144, 1000][(len(hist) * 5 + sum(x[0] for x in hist)) % 8]
+        creator = GanttChartCreator(d2, gif_config={"frames_dir": tmp, "remove_frames": False, "fps": fps,
                                                     "gif_path": _os.path.join(tmp, "x.gif")})
         creator.partial_gantt_chart_plotter = plot_function
-        old_gif = _vid.create_gif_from_frames
-        _vid.create_gif_from_frames = lambda *a, **k: None
+        # the real create_gif_from_frames / _load_images run; `imageio` is replaced (a frame "image" is the text of its file, the
+        # "GIF" is the list of images handed to mimsave) and the directory is listed in a hostile order
+        written = []
+
+        class _Imageio:
+            @staticmethod
+            def imread(path):
+                with open(path, encoding="utf-8") as fh:
+                    return fh.read()
+
+            @staticmethod
+            def mimsave(path, images, **kwargs):
+                written.append((list(images), dict(kwargs)))
+
+        class _Os:
+            path = _os.path
+
+            @staticmethod
+            def listdir(dname):
+                return list(reversed(sorted(n for n in _os.listdir(dname) if n.startswith("frame_"))))
+
+        old_io, old_os = _vid.imageio, _vid.os
+        _vid.imageio, _vid.os = _Imageio, _Os
         _vid.plt.close = lambda *a, **k: None
         import shutil as _shutil
         try:
@@ -1174,17 +1211,13 @@ class ImplViz(ImplGen):
                 d2.dispatch(self.instance.jobs[j][p], m)
             sink.clear()
             seen.clear()
+            written.clear()
             creator.create_gif()
-            # what the GIF is assembled from: the real directory, listed in a hostile order, loaded by the real loader
-            names = [n for n in _os.listdir(tmp) if n.startswith("frame_")]
-            order = load_order(list(reversed(sorted(names))))
-            shown = []
-            for n in order:
-                with open(_os.path.join(tmp, n), encoding="utf-8") as fh:
-                    shown.append(fh.read())
+            # what the GIF is assembled from: the images the real pipeline handed to the GIF writer
+            shown = [str(x) for x in written[-1][0]] if written else ["no-gif-written"]
         finally:
             _vid.plt.close = old_close
-            _vid.create_gif_from_frames = old_gif
+            _vid.imageio, _vid.os = old_io, old_os
             _shutil.rmtree(tmp, ignore_errors=True)
         facade = f"xlim {seen.get('xlim', 0)} " + " / ".join(shown)
         return direct if facade == direct else facade
